@@ -19,7 +19,7 @@ THEOREMS = [
     "Mro.pd_rejects_iff_cpython_rejects", "Mro.getdoc_is_not_the_mro_walk",
     "Mro.pd_eq_cpython_generic", "Mro.mroEntries_eq_localBases", "Mro.pd_eq_cpython_genericOld_counterexample",
     "Mro.classMro_accept", "Mro.classMro_no_external", "Mro.isException_iff", "Mro.findDunderConstructor_eq_lookup",
-    "Mro.overrides_eq_super", "Mro.overriding_sound", "Mro.overriding_nodup_partial", "Mro.overriding_duplicate_counterexample",
+    "Mro.overrides_eq_super", "Mro.overriding_sound", "Mro.overriding_nodup", "Mro.overriding_duplicate_counterexample",
     "Mro.inherited_members_iff", "Mro.inherited_attribution",
     "Mro.second_pass_canonical", "Mro.second_pass_trigger_independent", "Mro.second_pass_wrong_scope_counterexample",
 ]
@@ -53,9 +53,6 @@ ASSUMPTIONS = [
     "(pydoctor reports it too; both models agree on `reject`)",
 ]
 PARTIAL = {
-    "Mro.overriding_nodup_partial": "'overridden in' lists no class twice only under single inheritance (every class has at most one "
-                                    "base); with multiple inheritance the statement is false of the code "
-                                    "(Mro.overriding_duplicate_counterexample, open finding overridden-in:listed-twice)",
     "compute_mro.init_finalbaseobjects": "modelled as Mro.secondPass over the recorded AST-pass data (raw base names, "
                                          "_initialbaseobjects, resolveName table) and proved trigger independent; that the names "
                                          "denote the classes Python binds is checked by the direct oracle only (import cycles, all "
